@@ -67,7 +67,7 @@ def history(rng, enc, targeted):
             k = rng.choice(live); live.remove(k); steps.append("D %d" % k)
             for x in list(info):
                 if info[x] == ("copy", k): info[x] = "derived"
-    return "%s %d ; %s" % (enc, len(steps), " ; ".join(steps))
+    return "%s %d SALT %d ; %s" % (enc, len(steps), rng.randrange(12), " ; ".join(steps))
 def isect_history(rng, enc):
     """targeted at the product constructions: B random, A := image of B under a merging map (repeated states in A's tuples where B has
     distinct ones; L(B) <= L(A), so both intersections must denote L(B)), or two richer random automata; both operand orders, then trimming"""
@@ -78,7 +78,7 @@ def isect_history(rng, enc):
         b = gen.rand_ta(rng, rng.randint(2, 4), rng.randint(3, 8), sigma=SIG, pfinal=0.5, leafbias=0.35)
     if rng.random() < 0.5: b = b.rename({q: q + 10 for q in b.states()})
     steps = ["L 0 " + a.fmt(), "L 1 " + b.fmt(), "X 2 0 1", "X 3 1 0", "%s 4 2" % rng.choice(["UL", "UR"]), "U 5 2 3"]
-    return "%s %d ; %s" % (enc, len(steps), " ; ".join(steps))
+    return "%s %d SALT %d ; %s" % (enc, len(steps), rng.randrange(12), " ; ".join(steps))
 def cases(rng, tier):
     cs = [(l, "corpus") for l in CORPUS]
     nt, nr = (250, 500) if tier == "quick" else (2000, 5000)
@@ -97,6 +97,7 @@ def observe(dist, c, impl, verd):
 def shrink_candidates(c):
     parts = c.split(" ; ")
     enc = parts[0].split()[0]; ops = parts[1:]
+    salt = (" SALT " + parts[0].split("SALT")[1].strip()) if "SALT" in parts[0] else ""
     for i in range(len(ops) - 1, -1, -1):
         rest = ops[:i] + ops[i + 1:]
         # keep only histories that never use an undefined handle
@@ -107,7 +108,7 @@ def shrink_candidates(c):
             if any(int(u) not in defined for u in use): ok = False; break
             if w[0] == "D": defined.discard(int(w[1]))
             elif w[0] != "F": defined.add(int(w[1]))
-        if ok and rest: yield "%s %d ; %s" % (enc, len(rest), " ; ".join(rest))
+        if ok and rest: yield "%s %d%s ; %s" % (enc, len(rest), salt, " ; ".join(rest))
 def explain(c, impl, verd):
     return ("case = <encoding> <n> ; op ; ... (see harness/drv/c08.cc for the ops); impl = after every step 'S' the dump of every live handle (and 'TD' the dump of GetTopDownAut() "
             "of every bottom-up handle); gate <op> (at step i) fails when after step i some live handle does not denote the language the pool model prescribes (C08_gate_sound): the "
